@@ -6,7 +6,7 @@ the served signature verifies under the server key is checked by execution.)
 -/
 namespace Gca.Srv
 
-theorem buildStats_live (sgn : Bytes → Bytes) (s : State) (tso : Nat)
+theorem c03h_buildStats_live (sgn : Bytes → Bytes) (s : State) (tso : Nat)
     (h1 : tso % week = 0) (h2 : s.off ≤ tso) (h3 : tso ≤ s.off + week) :
     buildStats sgn s tso =
       some { devs := s.devices.map (fun p => devStats (if tso = s.off + week then week else 0) p.2),
@@ -16,7 +16,7 @@ theorem buildStats_live (sgn : Bytes → Bytes) (s : State) (tso : Nat)
   unfold buildStats
   rw [if_neg (by simpa using h1), if_neg (by omega), if_neg (by omega)]
 
-theorem statsQuery_live (sgn : Bytes → Bytes) (s : State) (tso : Nat)
+theorem c03h_statsQuery_live (sgn : Bytes → Bytes) (s : State) (tso : Nat)
     (h1 : tso % week = 0) (h2 : s.off ≤ tso) (h3 : tso ≤ s.off + week) :
     statsQuery sgn s tso =
       Out.stats {
@@ -25,22 +25,22 @@ theorem statsQuery_live (sgn : Bytes → Bytes) (s : State) (tso : Nat)
              sig := sgn (Week.signingBytes
                ⟨s.devices.map (fun p => devStats (if tso = s.off + week then week else 0) p.2), tso, []⟩) } := by
   unfold statsQuery
-  rw [if_neg (by simpa using h1), if_neg (by omega), buildStats_live sgn s tso h1 h2 h3]
+  rw [if_neg (by simpa using h1), if_neg (by omega), c03h_buildStats_live sgn s tso h1 h2 h3]
 
-theorem shiftList_lo {α} (b : α) (l : List α) (hl : l.length = window) (i : Nat) (hi : i < week) :
+theorem c03h_shiftList_lo {α} (b : α) (l : List α) (hl : l.length = window) (i : Nat) (hi : i < week) :
     (shiftList b l)[i]? = l[i + week]? := by
   unfold shiftList
   have hd : (l.drop week).length = week := by simp [hl, window, week]
   rw [List.getElem?_append_left (by omega), List.getElem?_drop, Nat.add_comm]
 
-theorem shiftList_hi {α} (b : α) (l : List α) (hl : l.length = window) (i : Nat) (h1 : week ≤ i)
+theorem c03h_shiftList_hi {α} (b : α) (l : List α) (hl : l.length = window) (i : Nat) (h1 : week ≤ i)
     (h2 : i < window) : (shiftList b l)[i]? = some b := by
   unfold shiftList
   have hd : (l.drop week).length = week := by simp [hl, window, week]
   rw [List.getElem?_append_right (by omega), hd, List.getElem?_replicate]
   rw [if_pos (by unfold window week at *; omega)]
 
-theorem rotate_eq (sgn : Bytes → Bytes) (s : State) (w : Week) (hb : buildStats sgn s s.off = some w) :
+theorem c03h_rotate_eq (sgn : Bytes → Bytes) (s : State) (w : Week) (hb : buildStats sgn s s.off = some w) :
     rotate sgn s = ({ s with
               history := s.history ++ [w],
               disk := { s.disk with weeks := s.disk.weeks ++ [w] },
@@ -62,7 +62,7 @@ theorem c03_live (sgn : Bytes → Bytes) (s : State) (tso : Nat) (hinv : Inv s)
     rcases h with h | h <;> subst h <;> simp [hmod]
   have hx : (if tso = s.off + week then week else 0) = tso - s.off := by
     rcases h with h | h <;> subst h <;> simp [week]
-  refine ⟨_, statsQuery_live sgn s tso hmod' (by omega) (by omega), rfl, ?_, rfl⟩
+  refine ⟨_, c03h_statsQuery_live sgn s tso hmod' (by omega) (by omega), rfl, ?_, rfl⟩
   simp only [hx]
 
 /-- Per slot: entry `i` of a device's live statistics is the power stored for timeslot `tso + i`. -/
@@ -130,9 +130,9 @@ theorem c03_rotate (sgn : Bytes → Bytes) (s : State) (hinv : Inv s) :
       (∀ i, i < week → d'.reports[i]? = d.reports[i + week]? ∧ d'.impact[i]? = d.impact[i + week]?) ∧
       (∀ i, week ≤ i → i < window → d'.reports[i]? = some Report.zero ∧ d'.impact[i]? = some 0) := by
   have hmod : s.off % week = 0 := by rw [hinv.offHist]; exact Nat.mul_mod_right _ _
-  have hb := buildStats_live sgn s s.off hmod (Nat.le_refl _) (Nat.le_add_right _ _)
-  have hq := statsQuery_live sgn s s.off hmod (Nat.le_refl _) (Nat.le_add_right _ _)
-  rw [rotate_eq sgn s _ hb, hq]
+  have hb := c03h_buildStats_live sgn s s.off hmod (Nat.le_refl _) (Nat.le_add_right _ _)
+  have hq := c03h_statsQuery_live sgn s s.off hmod (Nat.le_refl _) (Nat.le_add_right _ _)
+  rw [c03h_rotate_eq sgn s _ hb, hq]
   refine ⟨rfl, ?_, ?_, ?_, rfl, ?_⟩
   · simp
   · simp
@@ -143,9 +143,9 @@ theorem c03_rotate (sgn : Bytes → Bytes) (s : State) (hinv : Inv s) :
     · show FMap.get (List.map (fun p => (p.1, shiftDev p.2)) s.devices) id = _
       rw [FMap.get_map_val, hd]; rfl
     · intro i hi'
-      exact ⟨shiftList_lo _ _ hr i hi', shiftList_lo _ _ hi i hi'⟩
+      exact ⟨c03h_shiftList_lo _ _ hr i hi', c03h_shiftList_lo _ _ hi i hi'⟩
     · intro i h1 h2
-      exact ⟨shiftList_hi _ _ hr i h1 h2, shiftList_hi _ _ hi i h1 h2⟩
+      exact ⟨c03h_shiftList_hi _ _ hr i h1 h2, c03h_shiftList_hi _ _ hi i h1 h2⟩
 
 /-- Weeks are archived contiguously from week 0, in every reachable state. -/
 theorem c03_contiguous (cfg : Cfg) (V : Verify) (sgn : Bytes → Bytes) (s : State) (ops : List Op)
@@ -156,7 +156,7 @@ theorem c03_contiguous (cfg : Cfg) (V : Verify) (sgn : Bytes → Bytes) (s : Sta
   ⟨h.offHist, h.histTso⟩
 
 
-theorem integrate_history (cfg : Cfg) (s s' : State) (r : Report) (b : Bool)
+theorem c03h_integrate_history (cfg : Cfg) (s s' : State) (r : Report) (b : Bool)
     (h : integrate cfg s r = some (s', b)) : s'.history = s.history := by
   unfold integrate at h
   split at h
@@ -166,7 +166,7 @@ theorem integrate_history (cfg : Cfg) (s s' : State) (r : Report) (b : Bool)
     · simp at h; rw [← h.1]
     · simp at h; rw [← h.1]
 
-theorem replayReports_history (cfg : Cfg) (V : Verify) (rs : List Report) (s s' : State)
+theorem c03h_replayReports_history (cfg : Cfg) (V : Verify) (rs : List Report) (s s' : State)
     (h : replayReports cfg V s rs = some s') : s'.history = s.history := by
   induction rs generalizing s with
   | nil => simp [replayReports] at h; rw [h]
@@ -181,9 +181,9 @@ theorem replayReports_history (cfg : Cfg) (V : Verify) (rs : List Report) (s s' 
         · split at h
           · simp at h
           · rename_i hi
-            rw [ih _ h, integrate_history _ _ _ _ _ hi]
+            rw [ih _ h, c03h_integrate_history _ _ _ _ _ hi]
 
-theorem replayAuth_history (cfg : Cfg) (s : State) (a : Auth) : (replayAuth cfg s a).history = s.history := by
+theorem c03h_replayAuth_history (cfg : Cfg) (s : State) (a : Auth) : (replayAuth cfg s a).history = s.history := by
   unfold replayAuth
   split
   · rfl
@@ -193,20 +193,20 @@ theorem replayAuth_history (cfg : Cfg) (s : State) (a : Auth) : (replayAuth cfg 
       · rfl
     · split <;> rfl
 
-theorem foldl_replayAuth_history (cfg : Cfg) (as : List Auth) (s : State) :
+theorem c03h_foldl_replayAuth_history (cfg : Cfg) (as : List Auth) (s : State) :
     (as.foldl (replayAuth cfg) s).history = s.history := by
   induction as generalizing s with
   | nil => rfl
-  | cons a as ih => simp only [List.foldl_cons]; rw [ih, replayAuth_history]
+  | cons a as ih => simp only [List.foldl_cons]; rw [ih, c03h_replayAuth_history]
 
-theorem rotate_history (sgn : Bytes → Bytes) (s : State) :
+theorem c03h_rotate_history (sgn : Bytes → Bytes) (s : State) :
     ∃ t, (rotate sgn s).1.history = s.history ++ t := by
   unfold rotate
   split
   · exact ⟨[], by simp⟩
   · exact ⟨[_], rfl⟩
 
-theorem catchUp_history (sgn : Bytes → Bytes) (now fuel : Nat) (s : State) :
+theorem c03h_catchUp_history (sgn : Bytes → Bytes) (now fuel : Nat) (s : State) :
     ∃ t, (catchUp sgn now fuel s).1.history = s.history ++ t := by
   induction fuel generalizing s with
   | zero => exact ⟨[], by simp [catchUp]⟩
@@ -214,7 +214,7 @@ theorem catchUp_history (sgn : Bytes → Bytes) (now fuel : Nat) (s : State) :
     unfold catchUp
     split
     · exact ⟨[], by simp⟩
-    · obtain ⟨t, ht⟩ := rotate_history sgn s
+    · obtain ⟨t, ht⟩ := c03h_rotate_history sgn s
       split
       · rename_i s' hr
         rw [hr] at ht
@@ -225,7 +225,7 @@ theorem catchUp_history (sgn : Bytes → Bytes) (now fuel : Nat) (s : State) :
         exact ⟨t, ht⟩
 
 
-theorem load_history (cfg : Cfg) (V : Verify) (sgn : Bytes → Bytes) (d : Disk) (tk fresh : Key) (now : Nat)
+theorem c03h_load_history (cfg : Cfg) (V : Verify) (sgn : Bytes → Bytes) (d : Disk) (tk fresh : Key) (now : Nat)
     (s' : State) (h : load cfg V sgn d tk fresh now = some s') : ∃ t, s'.history = d.weeks ++ t := by
   unfold load at h
   split at h
@@ -246,29 +246,29 @@ theorem load_history (cfg : Cfg) (V : Verify) (sgn : Bytes → Bytes) (d : Disk)
           · rename_i s4 hs4
             simp at h
             subst h
-            have h3 : s3.history = d'.weeks := replayReports_history _ _ _ _ _ hs3
-            obtain ⟨t, ht⟩ := catchUp_history sgn now (now / week + 2) s3
+            have h3 : s3.history = d'.weeks := c03h_replayReports_history _ _ _ _ _ hs3
+            obtain ⟨t, ht⟩ := c03h_catchUp_history sgn now (now / week + 2) s3
             rw [hs4] at ht
             exact ⟨t, by rw [ht, h3, hw]⟩
           · simp at h
 
 
 /-- One operation only ever appends to the archive. -/
-theorem step_history (cfg : Cfg) (V : Verify) (sgn : Bytes → Bytes) (s : State) (op : Op) (hinv : Inv s) :
+theorem c03h_step_history (cfg : Cfg) (V : Verify) (sgn : Bytes → Bytes) (s : State) (op : Op) (hinv : Inv s) :
     ∃ t, (step cfg V sgn s op).1.history = s.history ++ t := by
   cases op with
-  | rotate => exact rotate_history sgn s
+  | rotate => exact c03h_rotate_history sgn s
   | tick now =>
     simp only [step, tick]
     split
-    · exact rotate_history sgn s
+    · exact c03h_rotate_history sgn s
     · exact ⟨[], by simp⟩
   | restart fresh now =>
     simp only [step]
     split
     · exact ⟨[], by simp⟩
     · rename_i s' hl
-      obtain ⟨t, ht⟩ := load_history _ _ _ _ _ _ _ _ hl
+      obtain ⟨t, ht⟩ := c03h_load_history _ _ _ _ _ _ _ _ hl
       exact ⟨t, by rw [ht, hinv.histDisk]⟩
   | dgram now d =>
     refine ⟨[], ?_⟩
@@ -284,7 +284,7 @@ theorem step_history (cfg : Cfg) (V : Verify) (sgn : Bytes → Bytes) (s : State
           · split
             · rfl
             · rename_i hi
-              exact integrate_history _ _ _ _ _ hi
+              exact c03h_integrate_history _ _ _ _ _ hi
   | register k sig =>
     refine ⟨[], ?_⟩
     simp only [step, register, List.append_nil]
@@ -331,13 +331,13 @@ theorem step_history (cfg : Cfg) (V : Verify) (sgn : Bytes → Bytes) (s : State
     · split <;> rfl
 
 /-- The archive of the start state is a prefix of the archive of every later state. -/
-theorem run_history (cfg : Cfg) (V : Verify) (sgn : Bytes → Bytes) (ops : List Op) (s : State)
+theorem c03h_run_history (cfg : Cfg) (V : Verify) (sgn : Bytes → Bytes) (ops : List Op) (s : State)
     (hinv : Inv s) (hops : ∀ op ∈ ops, OpWF op) :
     ∃ t, (run cfg V sgn s ops).1.history = s.history ++ t := by
   induction ops generalizing s with
   | nil => exact ⟨[], by simp [run]⟩
   | cons op ops ih =>
-    obtain ⟨t1, h1⟩ := step_history cfg V sgn s op hinv
+    obtain ⟨t1, h1⟩ := c03h_step_history cfg V sgn s op hinv
     have hinv' := inv_step cfg V sgn s op hinv (hops op (by simp))
     obtain ⟨t2, h2⟩ := ih (step cfg V sgn s op).1 hinv' (fun o ho => hops o (by simp [ho]))
     refine ⟨t1 ++ t2, ?_⟩
@@ -349,7 +349,7 @@ identical forever, whatever requests, reports, bans, rotations or restarts follo
 theorem c03_immutable (cfg : Cfg) (V : Verify) (sgn : Bytes → Bytes) (s : State) (ops : List Op)
     (hinv : Inv s) (hops : ∀ op ∈ ops, OpWF op) (k : Nat) (hk : k < s.history.length) :
     statsQuery sgn (run cfg V sgn s ops).1 (week * k) = .stats s.history[k] := by
-  obtain ⟨t, ht⟩ := run_history cfg V sgn ops s hinv hops
+  obtain ⟨t, ht⟩ := c03h_run_history cfg V sgn ops s hinv hops
   have hinv' := inv_run cfg V sgn s ops hinv hops
   have hk' : k < (run cfg V sgn s ops).1.history.length := by rw [ht]; simp; omega
   rw [c03_archived sgn _ k hinv' hk']
